@@ -127,7 +127,7 @@ theorem sortPairs_spec (st : List PairM) (hr : repPairs st = true) :
     repPairs (sortBy (fun p : PairM => p.2.1) st) = true ∧
     countLive pairLive (sortBy (fun p : PairM => p.2.1) st) = countLive pairLive st ∧
     (sortBy (fun p : PairM => p.2.1) st).length = st.length := by
-  have hdead : ∀ y ∈ st, pairLive y = false → y.2.1 = [] := fun y hy => ((repPairs_iff st).mp hr y hy).2
+  have hdead : ∀ y ∈ st, pairLive y = false → y.2.1 = [] := fun y hy hd => (((repPairs_iff st).mp hr y hy).2 hd).1
   have hf := sortBy_filter (fun p : PairM => p.2.1) pairLive st hdead
   have hm := sortBy_map (fun p : PairM => p.2.1) (fun kv : Key × Tree => kv.1)
     (fun p : PairM => (p.2.1, p.2.2.abs)) (fun _ => rfl) (st.filter pairLive)
@@ -139,6 +139,12 @@ theorem sortPairs_spec (st : List PairM) (hr : repPairs st = true) :
   · simp only [countLive]
     rw [hf, length_sortBy]
   · simp only [length_sortBy]
+
+theorem sortStore_ix (st : List PairM) (hr : repPairs st = true) (ix : Option Index) :
+    ixOk (sortBy (fun p : PairM => p.2.1) st) (sortStore st ix).2 = true := by
+  cases ix with
+  | none => rfl
+  | some m => exact ixOk_build _ (sortPairs_spec st hr).2.1
 
 theorem kid_spec (lock : Bool) (v : Tree) : (kid lock v).abs = v ∧ (kid lock v).live = true ∧ (kid lock v).repOk = true := by
   cases lock
@@ -167,17 +173,19 @@ theorem sortRaw_spec : ∀ (r lock : Bool) (v : Tree),
   | r, lock, .obj kvs => by
     have ih := sortRawPairs_spec lock kvs
     cases kvs with
-    | nil => cases r <;> simp [sortRaw, NodeM.abs, absPairs, Tree.sortKeys, sortMembers, sortByKey, sortBy, NodeM.live, NodeM.repOk, repPairs, countLive]
+    | nil => cases r <;> simp [sortRaw, NodeM.abs, absPairs, Tree.sortKeys, sortMembers, sortByKey, sortBy, NodeM.live, NodeM.repOk, repPairs, countLive, ixOk]
     | cons y ys =>
       obtain ⟨i1, i2, i3, i4⟩ := ih
       obtain ⟨k1, k2, k3⟩ := kid_pairs lock (y :: ys)
       cases r
       · obtain ⟨s1, s2, s3, s4⟩ := sortPairs_spec ((y :: ys).map (fun kv => mkPair kv.1 (kid lock kv.2))) k2
+        have s5 := sortStore_ix ((y :: ys).map (fun kv => mkPair kv.1 (kid lock kv.2))) k2
         simp only [sortRaw, sortStore_fst, Bool.false_eq_true, if_false, NodeM.abs, s1, k1, Tree.sortKeys, NodeM.live, NodeM.repOk, s2,
-          s3, countLive_all _ _ k3, Bool.true_and, decide_true, and_self]
+          s3, s5, countLive_all _ _ k3, Bool.true_and, Bool.and_true, decide_true, and_self]
       · obtain ⟨s1, s2, s3, s4⟩ := sortPairs_spec (sortRawPairs lock (y :: ys)) i2
+        have s5 := sortStore_ix (sortRawPairs lock (y :: ys)) i2
         simp only [sortRaw, sortStore_fst, if_true, NodeM.abs, s1, i1, Tree.sortKeys, NodeM.live, NodeM.repOk, s2,
-          s3, countLive_all _ _ i3, Bool.true_and, decide_true, and_self]
+          s3, s5, countLive_all _ _ i3, Bool.true_and, Bool.and_true, decide_true, and_self]
   | r, lock, .arr xs => by
     have ih := sortRawElems_spec r lock xs
     cases xs with
@@ -210,9 +218,10 @@ theorem sortRawPairs_spec : ∀ (lock : Bool) (kvs : List (Key × Tree)),
   | lock, (k, x) :: xs => by
     obtain ⟨h1, h2, h3⟩ := sortRaw_spec true lock x
     obtain ⟨i1, i2, i3, i4⟩ := sortRawPairs_spec lock xs
-    simp only [sortRawPairs, absPairs, h2, if_true, h1, i1, sortMembers, repPairs, h3, i2, Bool.and_self,
-      List.mem_cons, List.length_cons, i4, true_and, and_true]
+    refine ⟨by simp [sortRawPairs, absPairs, h2, h1, i1, sortMembers], by simp [sortRawPairs, repPairs, h2, h3, i2],
+      ?_, by simp [sortRawPairs, i4]⟩
     intro p hp
+    simp only [sortRawPairs, List.mem_cons] at hp
     rcases hp with rfl | hp
     · simpa using h2
     · exact i3 p hp
@@ -254,14 +263,17 @@ theorem sortM_spec : ∀ (r : Bool) (n : NodeM), n.repOk = true →
       decide_true, and_self]
   | r, .obj l st ix, h => by
     simp only [NodeM.repOk, Bool.and_eq_true, decide_eq_true_eq] at h
+    replace h := h.1
     obtain ⟨i1, i2, i3⟩ := sortPairsM_spec st h.1
     cases r
     · obtain ⟨s1, s2, s3, s4⟩ := sortPairs_spec st h.1
-      simp only [NodeM.sortM, sortStore_fst, Bool.false_eq_true, if_false, NodeM.abs, s1, Tree.sortKeys, NodeM.repOk, s2, s3, h.2,
-        NodeM.live, Bool.true_and, decide_true, and_self]
+      have s5 := sortStore_ix st h.1
+      simp only [NodeM.sortM, sortStore_fst, Bool.false_eq_true, if_false, NodeM.abs, s1, Tree.sortKeys, NodeM.repOk, s2, s3, s5, h.2,
+        NodeM.live, Bool.true_and, Bool.and_true, decide_true, and_self]
     · obtain ⟨s1, s2, s3, s4⟩ := sortPairs_spec (sortPairsM st) i2
-      simp only [NodeM.sortM, sortStore_fst, if_true, NodeM.abs, s1, i1, Tree.sortKeys, NodeM.repOk, s2, s3, NodeM.live,
-        Bool.true_and, decide_eq_true_eq, and_true, true_and]
+      have s5 := sortStore_ix (sortPairsM st) i2
+      simp only [NodeM.sortM, sortStore_fst, if_true, NodeM.abs, s1, i1, Tree.sortKeys, NodeM.repOk, s2, s3, s5, NodeM.live,
+        Bool.true_and, Bool.and_true, decide_eq_true_eq, and_true, true_and]
       rw [h.2]; exact (countLive_of_map _ _ _ _ i3).symm
   | r, .objLazy pre rest, h => by
     simp only [NodeM.repOk, Bool.and_eq_true] at h
@@ -277,17 +289,19 @@ theorem sortM_spec : ∀ (r : Bool) (n : NodeM), n.repOk = true →
         · exact hall p hp
         · simp at hp; obtain ⟨k, v, _, rfl⟩ := hp; rfl
       obtain ⟨s1, s2, s3, s4⟩ := sortPairs_spec (pre ++ rest.map rawPair) hr'
+      have s5 := sortStore_ix (pre ++ rest.map rawPair) hr'
       simp only [NodeM.sortM, sortStore_fst, Bool.false_eq_true, if_false, NodeM.abs, s1, absPairs_append, raw_pairs_abs,
-        Tree.sortKeys, NodeM.repOk, s2, s3, countLive_all _ _ hl', NodeM.live, Bool.true_and, decide_true, and_self]
+        Tree.sortKeys, NodeM.repOk, s2, s3, s5, countLive_all _ _ hl', NodeM.live, Bool.true_and, Bool.and_true, decide_true, and_self]
     · have hr' : repPairs (sortPairsM pre ++ sortRawPairs false rest) = true := by simp [repPairs_append, i2, j2]
       have hc : countLive pairLive (sortPairsM pre) = pre.length := by
         rw [countLive_of_map _ pairLive _ pre i3, countLive_all _ _ hall]
       have hlen : (sortPairsM pre).length = pre.length := by
         have := congrArg List.length i3; simpa using this
       obtain ⟨s1, s2, s3, s4⟩ := sortPairs_spec (sortPairsM pre ++ sortRawPairs false rest) hr'
+      have s5 := sortStore_ix (sortPairsM pre ++ sortRawPairs false rest) hr'
       simp only [NodeM.sortM, sortStore_fst, if_true, NodeM.abs, s1, absPairs_append, i1, j1, sortMembers_append,
-        Tree.sortKeys, NodeM.repOk, s2, s3, countLive_append, hc, countLive_all _ _ j3, NodeM.live,
-        List.length_append, hlen, Bool.true_and, decide_true, and_self]
+        Tree.sortKeys, NodeM.repOk, s2, s3, s5, countLive_append, hc, countLive_all _ _ j3, NodeM.live,
+        List.length_append, hlen, Bool.true_and, Bool.and_true, decide_true, and_self]
 theorem sortElemsM_spec : ∀ (r : Bool) (st : List NodeM), repElems st = true →
     absElems (sortElemsM r st) = sortElems r (absElems st) ∧ repElems (sortElemsM r st) = true ∧
     (sortElemsM r st).map NodeM.live = st.map NodeM.live
@@ -312,13 +326,13 @@ theorem sortPairsM_spec : ∀ (st : List (Hash × Key × NodeM)), repPairs st = 
     rw [Bool.and_eq_true] at h
     obtain ⟨i1, i2, i3⟩ := sortPairsM_spec xs h.2
     by_cases hx : v.live
-    · have hr : v.repOk = true := by simpa [hx] using h.1
-      obtain ⟨s1, s2, s3⟩ := sortM_spec true v hr
-      simp [sortPairsM, absPairs, hx, s1, s2, s3, i1, i2, i3, sortMembers, repPairs]
+    · have hr : v.repOk = true ∧ hh = some k := by simpa [hx] using h.1
+      obtain ⟨s1, s2, s3⟩ := sortM_spec true v hr.1
+      simp [sortPairsM, absPairs, hx, s1, s2, s3, i1, i2, i3, sortMembers, repPairs, hr.2]
     · have hg : v = .gone := by cases v <;> simp [NodeM.live] at hx; rfl
       subst hg
-      have hk : k.isEmpty = true := by simpa [NodeM.live] using h.1
-      simp [sortPairsM, NodeM.sortM, absPairs, NodeM.live, i1, i2, i3, repPairs, hk]
+      have hk : k.isEmpty = true ∧ hh.isNone = true := by simpa [NodeM.live] using h.1
+      simp [sortPairsM, NodeM.sortM, absPairs, NodeM.live, i1, i2, i3, repPairs, hk.1, hk.2]
 end
 
 theorem sort_tree (t : Tree) (r : Bool) : t.stepHere (.sort r) = (.ok, t.sortKeys r) := rfl
